@@ -336,6 +336,9 @@ def write_replay(pid, seed, idx, v, theorem=None):
     return path
 
 
+EVIDENCE_DIR = None
+
+
 def finish(ctx, proof, level_rule, assumptions, extra_cov=None):
     """Print KNOWN-FINDING / VIOLATION lines, write evidence, return exit code."""
     pid = ctx.pid
@@ -372,6 +375,7 @@ def finish(ctx, proof, level_rule, assumptions, extra_cov=None):
         cov.update(extra_cov)
     ev = {'property_id': pid, 'tier': ctx.tier, 'seed': ctx.seed, 'level': 'proof', 'coverage': cov,
           'assumptions': assumptions, 'wall_s': round(time.time() - ctx.t0, 2), 'violations': nviol}
-    os.makedirs(os.path.join(VERIF, 'evidence'), exist_ok=True)
-    json.dump(ev, open(os.path.join(VERIF, 'evidence', pid + '.json'), 'w'), indent=1, default=str)
+    evdir = EVIDENCE_DIR or os.path.join(VERIF, 'evidence')
+    os.makedirs(evdir, exist_ok=True)
+    json.dump(ev, open(os.path.join(evdir, pid + '.json'), 'w'), indent=1, default=str)
     return 1 if nviol else 0
